@@ -53,9 +53,10 @@ type MapInto struct {
 func (f *MapInto) Call(s *slip.Scope, args slip.List, depth int) (result slip.Object) {
 	slip.CheckArgCount(s, depth, f, args, 2, -1)
 	rlist, ok := args[0].(slip.List)
-	if !ok {
+	if !ok && args[0] != nil {
 		slip.TypePanic(s, depth, "result-sequence", args[0], "list")
 	}
+	result = args[0]
 	fn := args[1]
 	d2 := depth + 1
 	caller := ResolveToCaller(s, fn, d2)
@@ -63,7 +64,7 @@ func (f *MapInto) Call(s *slip.Scope, args slip.List, depth int) (result slip.Ob
 	lists := make([]slip.List, len(args))
 	for i, arg := range args {
 		var list slip.List
-		if list, ok = arg.(slip.List); !ok {
+		if list, ok = arg.(slip.List); !ok && arg != nil {
 			slip.TypePanic(s, depth, "lists", arg, "list")
 		}
 		lists[i] = list
@@ -72,11 +73,11 @@ func (f *MapInto) Call(s *slip.Scope, args slip.List, depth int) (result slip.Ob
 	for i := 0; i < len(rlist); i++ {
 		for j, list := range lists {
 			if len(list) <= i {
-				return rlist
+				return
 			}
 			ca[j] = list[i]
 		}
 		rlist[i] = slip.PrimaryValue(caller.Call(s, ca, d2))
 	}
-	return rlist
+	return
 }
